@@ -24,3 +24,11 @@ for cfg, prog in facts.load_many(list(facts.CONFIGS)).items():
         allp.add(f.path)
 json.dump(sorted(allp), open(os.path.join(os.path.dirname(os.path.abspath(__file__)), "sa", "ref_fns.json"), "w"), indent=0)
 print(len(allp), "function paths")
+
+impls = {}
+for cfg, prog in facts.load_many(list(facts.CONFIGS)).items():
+    for f in prog.fns:
+        if f.impl_trait and not f.derived and "closure" not in f.path:
+            impls.setdefault("%s for %s" % (f.impl_trait, f.impl_self), set()).add(f.path.split("::")[-1])
+json.dump({k: sorted(v) for k, v in sorted(impls.items())}, open(os.path.join(os.path.dirname(os.path.abspath(__file__)), "sa", "ref_impls.json"), "w"), indent=0)
+print(len(impls), "trait impls")
